@@ -17,6 +17,12 @@ from a816.writers import IPSWriter, SFCWriter, Writer
 
 logger = logging.getLogger("a816")
 
+ADDRESS_MAPPING = {
+    "low": RomType.low_rom,
+    "low2": RomType.low_rom_2,
+    "high": RomType.high_rom,
+}
+
 
 class Program:
     def __init__(self, parser: MZParser | None = None, dump_symbols: bool = False):
@@ -122,13 +128,16 @@ class Program:
         self.logger.info("Success !")
         return 0
 
-    def assemble(self, asm_file: str, sfc_file: Path) -> int:
+    def assemble(self, asm_file: str, sfc_file: Path, mapping: str | None = None) -> int:
         """
         Compile asmfile.
         :param asm_file:
         :param sfc_file:
+        :param mapping: low, low2 or high
         :return: error code
         """
+        if mapping is not None:
+            self.resolver.rom_type = ADDRESS_MAPPING[mapping]
         with open(sfc_file, "wb") as f:
             sfc_emitter = SFCWriter(f)
             return self.assemble_with_emitter(asm_file, sfc_emitter)
@@ -141,12 +150,7 @@ class Program:
         copier_header: bool = False,
     ) -> int:
         if mapping is not None:
-            address_mapping = {
-                "low": RomType.low_rom,
-                "low2": RomType.low_rom_2,
-                "high": RomType.high_rom,
-            }
-            self.resolver.rom_type = address_mapping[mapping]
+            self.resolver.rom_type = ADDRESS_MAPPING[mapping]
         with open(ips_file, "wb") as f:
             ips_emitter = IPSWriter(f, copier_header)
             ips_emitter.begin()
